@@ -601,6 +601,15 @@ def filter_rules(ctx, F):
             okq = c.dest["l"] == 0 and not c.dest["p"] and len(own) == 1 and any(lib.same_origin(F, fb_, a_, fb_, own[0]) for a_ in c.args)
         ctx.ob("R-SIB", "predictor-undone|%s" % fn_.rsplit("::", 1)[-1], okq, "%s returns decompress_predictor(decoded, params)" % fn_, fb_.where(),
                what="%s does not return decompress_predictor(decoded data, its DecodeParms): a stream of this filter with /Predictor >= 2 comes out with the filter-type bytes and the deltas still in it" % fn_)
+    # 5c. the inflater's whole output is taken: read_to_end on the decoder, with no length-limiting adaptor in between (`take(n)`
+    # reports a normal end of data at its limit: the rest of a highly compressible stream is dropped without an error)
+    zb = F.fn("Stream::decompress_zlib")
+    zsc = lib.local_scope(F, zb)
+    rte = [c for x in zsc for c in x.calls if re.search(r"io::Read::(read_to_end|read_to_string)$", c.fn or "")]
+    lim = [(x, c) for x in zsc for c in x.calls if re.search(r"io::Read::(take|chain)$|io::Take::<.*>::set_limit$", c.fn or "")]
+    ctx.ob("R-ORDER", "inflate-reads-to-the-end", len(rte) >= 1 and not lim, "decompress_zlib reads the decoder to its end (%d read_to_end, no take/chain)" % len(rte), zb.where(),
+           what="decompress_zlib limits what it reads from the inflater (%s): data beyond the limit is dropped silently, the stream decodes to a prefix of its content and Stream::decompress makes the loss permanent"
+                % ([("%s at line %d" % ((c.fn or "").rsplit("::", 1)[-1], c.ln)) for x, c in lim] or "no read_to_end"))
     # 6. predictor geometry
     pr = F.fn("Stream::decompress_predictor")
     import byteset
